@@ -94,6 +94,7 @@ func gossipScenario(w *tracelog.Writer, t int, seed int64, done chan enode.ID) e
 		pong struct {
 			typ     uint16
 			payload []byte
+			seq     uint64
 		}
 	}
 	var peers []*peer
@@ -120,7 +121,10 @@ func gossipScenario(w *tracelog.Writer, t int, seed int64, done chan enode.ID) e
 			pmu.Lock()
 			typ, payload := p.pong.typ, p.pong.payload
 			pmu.Unlock()
-			pong := &portalwire.Pong{EnrSeq: 1, PayloadType: typ, Payload: payload}
+			pmu.Lock()
+			pseq := p.pong.seq
+			pmu.Unlock()
+			pong := &portalwire.Pong{EnrSeq: pseq, PayloadType: typ, Payload: payload}
 			b, err := pong.MarshalSSZ()
 			if err != nil {
 				return nil
@@ -248,7 +252,15 @@ func gossipScenario(w *tracelog.Writer, t int, seed int64, done chan enode.ID) e
 			"decodable": !broken, "radius": beInts(radiusLE(r))}
 		if rng.Intn(2) == 0 {
 			ev["via"] = "ping"
-			ping := &portalwire.Ping{EnrSeq: 1, PayloadType: typ, Payload: payload}
+			// a third of the pings announce a record sequence number above the one the node holds: the node then asks the peer
+			// for its record first (FINDNODES [0]), which these peers answer with an empty reply - the refresh fails, the
+			// radius of the ping counts all the same (sweep mutant C/29-C20)
+			seq := uint64(1)
+			if rng.Intn(3) == 0 {
+				seq = 1<<62 + uint64(rng.Intn(1000))
+				ev["seqhigh"] = true
+			}
+			ping := &portalwire.Ping{EnrSeq: seq, PayloadType: typ, Payload: payload}
 			pb, _ := ping.MarshalSSZ()
 			for len(done) > 0 {
 				<-done
@@ -271,6 +283,11 @@ func gossipScenario(w *tracelog.Writer, t int, seed int64, done chan enode.ID) e
 			ev["fresh"] = !inTable(p.node.ID())
 			pmu.Lock()
 			p.pong.typ, p.pong.payload = typ, payload
+			p.pong.seq = 1
+			if rng.Intn(3) == 0 { // the same with a pong
+				p.pong.seq = 1<<62 + uint64(rng.Intn(1000))
+				ev["seqhigh"] = true
+			}
 			pmu.Unlock()
 			portalwire.VerifPing(B.P, p.node)
 		}
